@@ -4,11 +4,15 @@
   Part 2 (rendering) is proved here in full over the model of errors.go
   (`Kvql.Errors.render`, tied to the Go code by the ERRFMT correspondence and by the
   regenerated window constants).  Part 1 (every position produced by the parser/checker is
-  0, -1 or a token start) is stated over the parser model in `C17_positions` (see C15/C17
-  parser section) — until that is proved it is listed as partial in C17.theorems and is
-  decided only by the PARSE spec differential.
+  0, -1 or a token start) is `parse_err_pos` / `parse_err_pos_inside` below, proved over the
+  model of parser.go + checker.go + statement.go (`Kvql.Parser.Parse`, tied to the Go code by
+  the PARSE correspondence) through the invariant "every `Pos` stored in a produced node is 0
+  or a token position" (Proofs/ParserPos*.lean).
 -/
 import Kvql.Proofs.ErrRender
+import Kvql.Proofs.ParserPosStmt
+import Kvql.Proofs.LexRefine
+import Kvql.Proofs.LexSpec
 
 namespace Kvql.Properties.C17
 
@@ -51,5 +55,57 @@ theorem window_slice_in_range (q : Bytes) (pos : Option Nat)
 
 /-- the window constants the proofs use are the ones in the Go source today -/
 theorem window_constants : winLen = 70 ∧ winLeft = 35 := ⟨winLen_eq, winLeft_eq⟩
+
+/-! ### Part 1: positions of parse-time errors -/
+
+/-- the positions a parse-time error of query `q` may carry: `-1` (`none`), `0`, or the offset
+    of one of the tokens of `q` -/
+def ErrPosOK (q : Bytes) : PErr → Prop
+  | .syntax none => True
+  | .syntax (some p) => p = 0 ∨ ∃ t ∈ Lexer.split q, t.pos = p
+  | .cycle p => p = 0 ∨ ∃ t ∈ Lexer.split q, t.pos = p
+  | .nest => True
+
+/-- Every error returned while parsing and type-checking `q` (parser.go, checker.go,
+    statement.go validators) carries -1, 0 or the start of one of the query's tokens — for
+    every query text and every value of `strconv.ParseFloat` (`pf`). -/
+theorem parse_err_pos (pf : Bytes → F64) (q : Bytes) (e : PErr)
+    (h : Parser.Parse pf (Lexer.split q) = .err e) : ErrPosOK q e := by
+  have := Proofs.ParserPos.parse_err_pos pf (Lexer.split q) e h
+  cases e with
+  | «syntax» p => cases p <;> simpa [ErrPosOK] using this
+  | cycle p => simpa [ErrPosOK] using this
+  | nest => trivial
+
+/-- … and such a token start lies inside the query text (with C16: a token's offset is the
+    offset of its first byte) -/
+theorem parse_err_pos_inside (pf : Bytes → F64) (q : Bytes) (p : Nat)
+    (h : Parser.Parse pf (Lexer.split q) = .err (.syntax (some p))) : p = 0 ∨ p < q.length := by
+  rcases parse_err_pos pf q _ h with h0 | ⟨t, ht, hp⟩
+  · exact Or.inl h0
+  · right
+    rw [Proofs.LexRefine.split_eq_spec] at ht
+    rcases Proofs.LexSpec.spec_tokens_ok q t ht with ⟨qc, _, hq, _⟩ | ⟨hne, hlen, _⟩
+    · have : t.pos < q.length := by
+        rcases Nat.lt_or_ge t.pos q.length with h1 | h1
+        · exact h1
+        · rw [List.getElem?_eq_none h1] at hq; cases hq
+      omega
+    · have : 0 < t.data.length := List.length_pos_iff.mpr hne
+      omega
+
+/-- the error of a result, if it is one -/
+def errOf {α : Type} : Res α → Option PErr
+  | .err e => some e
+  | _ => none
+
+/-- some value of `strconv.ParseFloat` for the examples (they contain no FLOAT token) -/
+def pf0 : Bytes → F64 := fun _ => ⟨0⟩
+
+/-- non-vacuity: `select * where key = 'a' limit x` is rejected at offset 31, the start of the
+    token `x` -/
+example : errOf (Parser.Parse pf0
+    (Lexer.split (Bytes.ofAscii "select * where key = 'a' limit x"))) = some (.syntax (some 31)) := by
+  decide +kernel
 
 end Kvql.Properties.C17
